@@ -12,7 +12,7 @@ import (
 
 func init() {
 	register("C37", propMeta{
-		Explanation:  "Decides the claim discipline of the two-slot handle protocol: (R1) Handle.AllocateID writes a physical id slot only when not both slots are in use and returns NilUUID otherwise; commitUpdatedNodes treats a NilUUID allocation as a conflict (return false) unless the existing reservation has expired, in which case it is cleared first; (R2) the protocol steps this relies on, shared with other properties: the registry version is compared with the node's version before anything is reserved (C02.R2), the reservation is written to the registry before the blob (C03.R1), the active id is flipped only at the single all-or-nothing commit point (C01.R2), pre-images are logged before the in-place flip and restored by priority rollback (C08.R2/R3); (R3) activateInactiveNodes pairs FlipActiveID with Version++ for every handle and touchNodes bumps the version of every removed handle, so a successor always carries a new version; (R4) undo functions that cannot tell this transaction's state from a competitor's (rollbackUpdatedNodes clears whatever reservation the handle holds, rollbackRemovedNodes clears whatever deletion mark it holds, rollbackNewRootNodes removes whatever root is registered) run in the live rollback only in a state that implies the step succeeded FOR THIS transaction: the guard is strictly `committedState > step`, and every later step's log call is reachable only through the success edge of the step's action. A `>=` guard would run the undo after the step returned false on detecting a competitor's reservation - wiping the competitor's staged successor.",
+		Explanation:  "Decides the claim discipline of the two-slot handle protocol: (R1) Handle.AllocateID writes a physical id slot only when not both slots are in use and returns NilUUID otherwise; commitUpdatedNodes treats a NilUUID allocation as a conflict (return false) unless the existing reservation has expired, in which case it is cleared first; (R2) the protocol steps this relies on, shared with other properties: the registry version is compared with the node's version before anything is reserved (C02.R2), the reservation is written to the registry before the blob (C03.R1), the active id is flipped only at the single all-or-nothing commit point (C01.R2), pre-images are logged before the in-place flip and restored by priority rollback (C08.R2/R3); (R3) activateInactiveNodes pairs FlipActiveID with Version++ for every handle and touchNodes bumps the version of every removed handle, so a successor always carries a new version; (R4) undo functions that cannot tell this transaction's state from a competitor's (rollbackUpdatedNodes clears whatever reservation the handle holds, rollbackRemovedNodes clears whatever deletion mark it holds, rollbackNewRootNodes removes whatever root is registered) run in the live rollback only in a state that implies the step succeeded FOR THIS transaction: the guard is strictly `committedState > step`, and every later step's log call is reachable only through the success edge of the step's action. A `>=` guard would run the undo after the step returned false on detecting a competitor's reservation - wiping the competitor's staged successor. (R5) phase2Commit does not clear the node keys between a failed commit-point write and its return, because Phase2Commit restores the pre-images only while the keys are held.",
 		DoesNotCover: "The interleaving / crash state space itself is not explored; lock expiry timing is a runtime matter.",
 	}, runC37)
 }
